@@ -218,6 +218,9 @@ class Index(object):
                     tree = ast.parse(src, filename=path)
                 except (SyntaxError, UnicodeDecodeError) as e:
                     raise AnalysisError("cannot parse %s: %s" % (path, e))
+                if not os.environ.get("TLSVERIF_NO_NORMALIZE"):
+                    from .normalize import normalize_module
+                    normalize_module(tree, rel)
                 m = Module(rel, path, src, tree)
                 self.modules[rel] = m
                 self._index_module(m)
